@@ -14,8 +14,8 @@ CHECKS = [
   "text": "Protocol layer: generated and mutated byte strings in 1-5 chunks against a response-wellformedness / status oracle (tens of thousands "
           "of inputs per quick run, millions of libFuzzer executions in the thorough run, seeded and empty corpus). Socket layer: a real "
           "Worker with the health server on a loopback port; histories of probes, malformed sends, early-opened connections, concurrent "
-          "bursts, a consumer failure and jobs; oracle 200/503/404 as of the moment the request is sent, port open exactly while run() runs, "
-          "jobs undisturbed.",
+          "bursts, a consumer failure, jobs and probes during a slow graceful shutdown; oracle 200/503/404 as of the moment the request is "
+          "sent, port open exactly while run() runs, jobs undisturbed.",
   "note": "Trusted base: Hypothesis, atheris 3.1 (bytecode instrumentation of the protocol methods), the oracle in harness/checks/c20.py. Socket "
           "layer uses real time and loopback sockets; client-side timeouts are counted inconclusive."},
  {"property_id": "C01", "level": "fault_enumeration", "design_ref": "DESIGN.md §4 C01",
@@ -24,12 +24,14 @@ CHECKS = [
           "executed against the real broker classes and a lifecycle reference model; broker-side state is probed after every operation "
           "(conservation: exactly one place per live message; cancelled calls leave the pre- or post-state). Cancellation points are "
           "loop-step indices on a deterministic loop, so a failing interleaving replays exactly. Statistical over histories; the thorough "
-          "tier additionally enumerates every cancellation step of every terminal call over a pool of pre-states.",
+          "tier additionally enumerates every cancellation step of every terminal call over a pool of pre-states (cancel-* sub-checks; sampled in "
+          "quick). 'launch'/'collect' rounds keep several consume calls of different clients in flight at once under unequal simulated latencies.",
   "note": _MODEL + _SRV + " One open known finding (D9: RabbitMQ requeue is ack+publish, not atomic) is excluded by signature."},
  {"property_id": "C02", "level": "exploration", "design_ref": "DESIGN.md §4 C02",
   "technique": "scenario property-based testing (Hypothesis) with scripted actors against a decision-table reference model, 3 brokers",
   "text": _WORKER + " Oracle = exact expected sequence of terminal broker calls per delivery (op, retry counter), body execution counts, "
-          "never-after-eager marker, final place, worker survival.",
+          "never-after-eager marker, final place, worker survival. Outcomes include exceptions whose __str__ raises, return values that cannot "
+          "be serialised, and a worker connection without a results bucket broker.",
   "note": _MODEL + _SRV},
  {"property_id": "C03", "level": "fault_enumeration", "design_ref": "DESIGN.md §4 C03",
   "technique": "step-indexed fault injection on a deterministic event loop (stop signal / process death at loop step k; Hypothesis-drawn k in quick, every k enumerated in thorough) with a replay-of-completed-calls oracle, 3 brokers",
@@ -37,12 +39,13 @@ CHECKS = [
           "death of its client) is injected at step k. After run() returns and the loop is idle each message must be, consistently with the "
           "terminal calls that completed, absent / dead / queued exactly once with its retry counter unchanged; Redis recovery is checked "
           "against take-time + execution timeout with maintenance runs before and after. The thorough tier is exhaustive over all steps of "
-          "the pooled scenarios (not over all workloads).",
+          "the pooled scenarios (not over all workloads); stop-random-* additionally injects into freshly generated workloads, aimed near "
+          "broker events of a dry run; kill-* mixes execution timeouts and runs maintenance at every deadline.",
   "note": _MODEL + _SRV + " asyncio has no preemption inside a loop step, so loop steps are the complete set of interleaving points for one process."},
  {"property_id": "C04", "level": "exploration", "design_ref": "DESIGN.md §4 C04",
   "technique": "scenario property-based testing of retry chains against a retry-ladder model plus parameter-level checks of _prepare_retry",
   "text": _WORKER + " Oracle = executions per scheduling, counter seen per attempt, already_tried+1<=N, next_execution_time==now+policy(k) to "
-          "the microsecond, next attempt not before failure+policy(k)-1ms, end state.",
+          "the microsecond, next attempt not before failure+policy(k)-1ms, end state. large-* sub-checks use back-offs of days to weeks.",
   "note": _MODEL + _SRV},
  {"property_id": "C05", "level": "exploration", "design_ref": "DESIGN.md §4 C05",
   "technique": "property-based testing of broker-level delivery timing on a virtual clock (due times at generated sub-second phases) with early/late/visibility oracles, 3 brokers",
@@ -55,7 +58,8 @@ CHECKS = [
  {"property_id": "C06", "level": "exploration", "design_ref": "DESIGN.md §4 C06",
   "technique": "property-based testing of reschedule arithmetic over generated iteration programmes (pinned clock) plus worker-level recurring scenarios on 3 brokers",
   "text": _WORKER + " Parameter-level layer drives the real _prepare_retry/_prepare_reschedule through 2-10 iterations with generated "
-          "latency/duration profiles; oracle = one successor, counter reset, TTL restarted, now<S_next<=now+p, S_next>=S_prev+p.",
+          "latency/duration profiles; oracle = one successor, counter reset, TTL restarted, now<S_next<=now+p, S_next>=S_prev+p. "
+          "amqp-long-period runs periods of 1-30 days through the RabbitMQ model.",
   "note": _MODEL + _SRV + " cron schedules are not exercised (croniter not installed)."},
  {"property_id": "C07", "level": "exploration", "design_ref": "DESIGN.md §4 C07",
   "technique": "round-trip and injectivity property-based testing of codecs and key encodings, plus end-to-end producer->broker->consumer->actor identity checks on 3 brokers",
@@ -68,7 +72,8 @@ CHECKS = [
   "technique": "property-based testing over generated actor signatures (exec-ed source, real CPython binding) and payloads against an independent binder; converter differential; output round trip",
   "text": "Signatures x payload shapes (empty, exact, missing, extras, permuted) are bound by an independent reference binder and compared with "
           "what the generated function actually receives through convert_inputs and through a Worker; Basic vs Pydantic vs default-selection "
-          "differential on typed payloads; json.loads(convert_outputs(v))==v for values of the return annotation.",
+          "differential on typed payloads; json.loads(convert_outputs(v))==v for values of the return annotation. Every payload is executed "
+          "twice on one converter by an actor that mutates its arguments: the second binding must not see the first one's mutations.",
   "note": _MODEL + " Pydantic 2 installed; *args/**kwargs only under BasicConverter (documented as unsupported by PydanticConverter)."},
  {"property_id": "C09", "level": "exploration", "design_ref": "DESIGN.md §4 C09",
   "technique": "scenario property-based testing with an in-body concurrency counter and a bounded-latency progress oracle, 3 brokers",
@@ -87,12 +92,13 @@ CHECKS = [
   "text": "Generated ttl/age/kind (immediate, delayed before/after expiry, retried, rescheduled, no ttl) with the consume (or worker start) "
           "instant placed at expiry+eps; oracle: after expiry never handed over / executed, dead-lettered and retrievable from the DEAD category "
           "with identical content; before expiry delivered and never dead-lettered; cases inside the latency slack band counted unconstrained; "
-          "a broker spinning on an expiring message (step watchdog) is reported.",
+          "a broker spinning on an expiring message (step watchdog) is reported; 1-4 adjacent copies of the expiring message.",
   "note": _MODEL + _SRV},
  {"property_id": "C13", "level": "exploration", "design_ref": "DESIGN.md §4 C13",
   "technique": "scenario property-based testing of stored results against the model's latest-execution outcome, plus fault-injection differential on store_bucket",
   "text": _WORKER + " Fault sub-check makes the k-th result store_bucket call raise and requires dispositions and final places to equal "
-          "the fault-free run of the same generated scenario.",
+          "the fault-free run of the same generated scenario. The stop sub-check injects the stop signal at loop steps around the result "
+          "store of a dry run (every step in the thorough tier): a job whose disposition was reported must have its result stored.",
   "note": _MODEL + _SRV + " AMQP scenarios use in-memory bucket brokers."},
  {"property_id": "C10", "level": "exploration", "design_ref": "DESIGN.md §4 C10",
   "technique": "scenario property-based testing of messages_limit (bound, self-stop, untouched remainder) and of the run-on-enqueue testing modifier",
@@ -108,7 +114,8 @@ CHECKS = [
   "technique": "model-based property-based testing of delivery order (single consumer, single priority) with drain / continuous-backlog / reject-and-reawait histories, 3 brokers",
   "text": "Order oracle over the event stream (enqueue, deliver, return): no never-returned message overtakes an earlier-enqueued waiting "
           "one; a returned message precedes everything enqueued after its return; nothing matching starves while the consumer polls; "
-          "queue lengths cross Redis's fetch window of 10; a spinning broker call (step watchdog) is reported.",
+          "queue lengths cross Redis's fetch window of 10; a spinning broker call (step watchdog) is reported; foreign-run mode puts 10-30 "
+          "foreign-topic messages ahead of own ones, with returns and a second consumer eating the run.",
   "note": _MODEL + _SRV + " Open known finding D20 (RabbitMQ foreign-topic head-of-line blocking under a small prefetch limit) is excluded by signature."},
  {"property_id": "C16", "level": "exploration", "design_ref": "DESIGN.md §4 C16",
   "technique": "model-based property-based testing of message-API call sequences on handles of every category and retry state; generated actor programmes for callback/result-store order",
@@ -121,13 +128,14 @@ CHECKS = [
   "text": "Every wrapped operation is exercised by a fixed lifecycle script under generated call styles and subscriber sets; the signal log "
           "must show exactly one before (seen in the pre-state) and one after iff the call returned, with the actual arguments by name and the "
           "result, nothing from nested calls and nothing to another connection's subscribers; results, exceptions and final broker state must "
-          "equal the subscriber-free run.",
+          "equal the subscriber-free run. The script's actor enqueues a sentinel job from inside its body (nested operation inside actor_run).",
   "note": _MODEL + _SRV},
  {"property_id": "C18", "level": "exploration", "design_ref": "DESIGN.md §4 C18",
   "technique": "property-based testing over generated dependency DAGs (exec-ed providers) against a recursive reference evaluator, with override sequences, failing providers and invalid declarations",
   "text": "Random DAGs with shared nodes, sync/async providers and message-dependency leaves are resolved by a real Worker; a 15-line recursive "
           "evaluator over the current graph gives the expected value of every dependency parameter; overrides are applied between jobs; provider "
-          "failure must follow the retry ladder without running the body; unsupported declarations must raise at declaration time.",
+          "failure must follow the retry ladder without running the body; unsupported declarations must raise at declaration time. Several "
+          "messages are resolved concurrently through shared Depends objects whose providers suspend.",
   "note": _MODEL + " In-memory broker only (dependency resolution is broker-independent)."},
  {"property_id": "C19", "level": "exploration", "design_ref": "DESIGN.md §4 C19",
   "technique": "property-based testing (Hypothesis) of pure functions against arithmetic oracles under a pinned clock",
